@@ -296,7 +296,8 @@ DecIcmp4(b, s) ==
       hl == IF ts THEN 20 ELSE 8
       tsl == IF B(b, s.pos) = 13 THEN "Icmpv4Timestamp" ELSE "Icmpv4TimestampReply" IN
   \* RFC 792: a timestamp message is exactly 20 bytes
-  IF ts /\ A(s) # 20 THEN Faulty(s, s.pos, {LenF(tsl, 20, A(s), W(s))}, {"Icmpv4"}) ELSE
+  \* stop layer: the ICMPv4 layer, under its general name or the name the length error itself carries
+  IF ts /\ A(s) # 20 THEN Faulty(s, s.pos, {LenF(tsl, 20, A(s), W(s))}, {"Icmpv4", tsl}) ELSE
   LET p == Pay("icmp4", s.pos + hl, A(s) - hl, {"any"}, -1, -1, TInc(s)) IN
   [s EXCEPT !.layers = Append(@, Layer("icmp4", s.pos, hl, FldIcmp(b, s.pos), p)), !.pos = s.pos + hl, !.pay = p, !.next = "done"]
 
